@@ -16,4 +16,5 @@ def run(chk):
         rule="one evaluation = one encoded frame measured against the bound (plus its subframes against the per-subframe bound); distinct by (shape x configuration x block length); non-trivial = a frame produced by the real encoder from a non-empty block",
         assumptions=["sizes are measured on the release build only (the size of the output does not depend on overflow checks)"],
         evaluations=lambda s: cu.total(s, "frames") + cu.total(s, "subframes"),
-        nontrivial=lambda s: cu.total(s, "frames"))
+        nontrivial=lambda s: cu.total(s, "frames"),
+        extra=lambda c, by_prof: __import__("checks.codec_common", fromlist=["x"]).encoder_model_tie(chk, c.cases))
